@@ -34,6 +34,16 @@ Init == live = <<>> /\ cur = [i \in Iters |-> -1] /\ nextId = 1 /\ l = 1
 New == /\ l <= Len(Trace) /\ Ev.op = "New"
        /\ live' = <<>> /\ cur' = [i \in Iters |-> -1] /\ nextId' = 1 /\ l' = l + 1
 
+\* NextN: the harness called Next n times in a row on iterator i (nothing else in between) and logs how many of the
+\* replies said ok and the LAST reply; the contract is OrderedMap!Apply applied n times, in the closed form
+\* OrderedMap!NextNDirect (TLC checks NextNAgrees on the model).
+NextN == /\ l <= Len(Trace) /\ Ev.op = "NextN" /\ ~Has(Ev, "crash")
+         /\ LET r == OM!NextNDirect([live |-> live, cur |-> cur, nextId |-> nextId], Ev.i, Ev.n)
+            IN /\ CheckReplies => (Ev.oks = r.oks /\ Ev.ok = r.last.ok /\ Ev.k = r.last.k /\ Ev.v = r.last.v)
+               /\ CheckRetention => RetentionOK(Ev)
+               /\ live' = r.s.live /\ cur' = r.s.cur /\ nextId' = r.s.nextId
+         /\ l' = l + 1
+
 \* The harness forgot an iterator without closing it (it stays open in the real map for ever).  Nothing the
 \* user can observe depends on a forgotten iterator, so the abstract state frees its id as Close does.
 Drop == /\ l <= Len(Trace) /\ Ev.op = "Drop"
@@ -42,14 +52,14 @@ Drop == /\ l <= Len(Trace) /\ Ev.op = "Drop"
               /\ live' = a.s.live /\ cur' = a.s.cur /\ nextId' = a.s.nextId
         /\ l' = l + 1
 
-Call == /\ l <= Len(Trace) /\ Ev.op \notin {"New", "Drop"} /\ ~Has(Ev, "crash")
+Call == /\ l <= Len(Trace) /\ Ev.op \notin {"New", "Drop", "NextN"} /\ ~Has(Ev, "crash")
         /\ LET a == OM!Apply([live |-> live, cur |-> cur, nextId |-> nextId], CallOf(Ev))
            IN /\ CheckReplies => Matches(Ev, a.res)
               /\ CheckRetention => RetentionOK(Ev)
               /\ live' = a.s.live /\ cur' = a.s.cur /\ nextId' = a.s.nextId
         /\ l' = l + 1
 
-Next == New \/ Call \/ Drop
+Next == New \/ Call \/ Drop \/ NextN
 Spec == Init /\ [][Next]_<<live, cur, nextId, l>>
 Accepted == AcceptByDiameter
 =============================================================================
